@@ -164,6 +164,41 @@ def root_read(t):
     return None
 
 
+_WRAP = ("id", "s", "r", "i", "b", "ref", "str", "real", "int", "bool")
+
+
+def is_old(t, depth: int = 0) -> bool:
+    """Syntactic sufficient condition for: the value t was obtained from the ENTRY heap
+    through objects that existed at entry (parameters, fields / elements / dict values of
+    such objects), so that - the entry heap being well formed - any reference it holds
+    denotes an object allocated before entry."""
+    if depth > 24 or not z3.is_app(t):
+        return False
+    k = t.decl().kind()
+    n = t.num_args()
+    if n == 0:
+        return k == z3.Z3_OP_UNINTERPRETED and t.decl().name().startswith("p_")
+    name = t.decl().name()
+    if n == 1 and name in _WRAP:
+        return is_old(t.arg(0), depth + 1)
+    if k == z3.Z3_OP_ITE:
+        return is_old(t.arg(1), depth + 1) and is_old(t.arg(2), depth + 1)
+    if k in (z3.Z3_OP_SEQ_NTH, getattr(z3, "Z3_OP_SEQ_NTH_I", -1)) or name == "elt":
+        return is_old(t.arg(0), depth + 1)
+    if k == z3.Z3_OP_SELECT:
+        a, x = t.arg(0), t.arg(1)
+        if z3.is_quantifier(a) and a.is_lambda() and a.num_vars() == 1:
+            return is_old(z3.substitute_vars(a.body(), x), depth + 1)
+        if z3.is_app(a) and a.num_args() == 0 and a.decl().kind() == z3.Z3_OP_UNINTERPRETED:
+            # H0_<map>[obj]: a heap map of the entry state read at an old object
+            return a.decl().name().startswith("H0_") and x.sort() == z3.IntSort() and is_old(x, depth + 1)
+        if z3.is_app(a) and a.decl().kind() == z3.Z3_OP_SELECT:
+            # H0_dmap[obj][key] / H0_ddom[obj][key]: the inner read decides
+            return is_old(a, depth + 1)
+        return False
+    return False
+
+
 def mod_match(m, oid):
     """Does frame entry m (an object id, or a predicate over object ids) cover oid?"""
     return m(oid) if callable(m) else oid == m
@@ -476,6 +511,9 @@ class Exec:
         sa, sb = z3.simplify(a - b), None
         if z3.is_int_value(sa):
             res = sa.as_long() != 0
+        elif (self._is_fresh_id(a) and is_old(b)) or (self._is_fresh_id(b) and is_old(a)):
+            # an object allocated by this function vs. an object reached from the entry heap
+            res = True
         elif getattr(self, "bound_depth", 0) > 0 and _has_var(a, b):
             res = False
         else:
@@ -486,6 +524,17 @@ class Exec:
             self.solver.pop()
         self._distinct_cache[(a.get_id(), b.get_id())] = (res, len(self.pc))
         return res
+
+    def _is_fresh_id(self, a) -> bool:
+        """a is syntactically  alloc0 + k  (k >= 0) or a later allocation pointer + k."""
+        d = z3.simplify(a - self.alloc0)
+        if z3.is_int_value(d) and d.as_long() >= 0:
+            return True
+        for b in self.epochs:
+            d = z3.simplify(a - b)
+            if z3.is_int_value(d) and d.as_long() >= 0:
+                return True
+        return False
 
     def wr(self, name: str, idx, val) -> None:
         self.heap[name] = z3.Store(self.H(name), idx, val)
@@ -513,6 +562,8 @@ class Exec:
         established: a value read (through unrelated writes) from the initial heap AT
         AN OBJECT THAT EXISTED INITIALLY is below alloc0; a parameter is below alloc0;
         anything else is below the current allocation pointer."""
+        if is_old(t):
+            return self.alloc0
         rr = root_read(t)
         if rr is not None:
             name, obj = rr
@@ -680,12 +731,12 @@ class Exec:
         return self.typed(val, self.val_ty(d.ty))
 
     def dict_get(self, d: SV, k: SV) -> SV:
-        return self.typed(z3.Select(self.dmap(d), k.t), self.val_ty(d.ty))
+        return self.typed(S.sel(self.dmap(d), k.t), self.val_ty(d.ty))
 
     def dict_has(self, d: SV, k: SV):
         if getattr(self, "bound_depth", 0) == 0:
             self.dict_wf_at(d, k.t)
-        return z3.Select(self.ddom(d), k.t)
+        return S.sel(self.ddom(d), k.t)
 
     # ------------------------------------------------------------------ truthiness
     def truth(self, v: SV):
@@ -1262,8 +1313,9 @@ class Exec:
                 idx = i if getattr(self, "_idx_nonneg", True) and self._nonneg(i) else idx
             return self.typed(s[idx], ety)
         if k == "raw":
-            if z3.is_array(base.t):
-                return self.typed(z3.Select(base.t, key.t), base.aux if isinstance(base.aux, T.Ty) else T.ANY)
+            if z3.is_array(base.t) or (z3.is_expr(base.t) and base.t.sort().kind() == z3.Z3_ARRAY_SORT):
+                # (a lambda term has array sort without being an ArrayRef)
+                return self.typed(S.sel(base.t, key.t), base.aux if isinstance(base.aux, T.Ty) else T.ANY)
             if z3.is_seq(base.t):
                 return self.typed(base.t[S.un_int(key.t)], base.aux if isinstance(base.aux, T.Ty) else T.ANY)
         if k == "str":
